@@ -136,6 +136,17 @@ def check(cx):
 
     r5 = cx.rule('R17.5', 'a pending deadline is never silently cancelled', floor=1, kind='typestate')
     census = cx_census(cx)
+    # only a PONG from the client counts as the answer: process_pong has exactly one caller, the dispatch arm of the PONG command
+    pcallers = [(fn, e) for fn, e in census if e.kind == 'call' and e.data.get('local') and e.data['callee'].endswith('::process_pong')]
+    r5.instance('process_pong callers: %s' % ','.join(short_fn(fn.replace('::{closure#0}', '')) for fn, e in pcallers))
+    for fn, e in pcallers:
+        b = short_fn(fn.replace('::{closure#0}', ''))
+        is_dispatch = b == 'process_internal' and any(a[0] == 'is' and a[2] == 'PONG' for a in atoms(e.pc))
+        if not is_dispatch:
+            r5.violation('%s|fires-notifier-without-PONG' % b, '%s calls process_pong: something other than a PONG from the client cancels the '
+                         'pending pong deadline' % b, loc=cx.loc(e.node))
+    if not pcallers:
+        r5.violation('nobody|calls-process_pong', 'PONG is never processed', loc=fpo)
     writes = [(fn, e) for fn, e in census if e.kind == 'assign' and not e.data.get('init') and path_of(e.data['lhs'])[-1:] == ['pong_notifier']
               and e.data['rhs'][0] == 'some']
     closed_counts = False
